@@ -128,12 +128,74 @@ def classify_failures(prop, v, fails, crashes, max_replays=5):
         f = known[t]
         v.known_finding("%s [%s] %s (%d cases this run, e.g. %s)" % (f["id"], t, f["what"], len(rs), rs[0]["query"][:80]))
     for r in new[:max_replays]:
-        path = write_replay(prop, "%s_case%d" % (r.get("mode", "x"), r["id"]), {"kind": "direct-oracle", "case": r})
+        obj = {"kind": "direct-oracle", "case": r, "seed": int(os.environ.get("VERIF_SEED", "1") or "1")}
+        cf = r.get("case_file")
+        if cf and os.path.exists(cf):
+            try:
+                obj["case_data"] = json.load(open(cf))   # the explicit case: query, window, options, series
+            except Exception:
+                pass
+        path = write_replay(prop, "%s_case%d" % (r.get("mode", "x"), r["id"]), obj)
         v.violation(path)
     for c in crashes[:max_replays]:
         path = write_replay(prop, "crash%d" % c["id"], {"kind": "process-crash", "case": c})
         v.violation(path)
     return {t: len(rs) for t, rs in hits.items()}, len(new), skipped
+
+
+def replay_one(prop, path):
+    """Replays one recorded failing case on the current tree. Returns an exit status, or None when the
+    replay file does not name a single case of a harness oracle (then the whole check is run)."""
+    try:
+        j = json.load(open(path))
+    except Exception:
+        return None
+    c = j.get("case") or {}
+    mode = c.get("mode")
+    if j.get("kind") != "direct-oracle" or not mode or "id" not in c:
+        return None
+    hbin, _ = build_harness(race=(prop == "C12"))
+    wd = _workdir(prop)
+    out = os.path.join(wd, "replay_out.jsonl")
+    if os.path.exists(out):
+        os.remove(out)
+    if j.get("case_data"):
+        tmp = os.path.join(wd, "replay_case.json")
+        json.dump(j["case_data"], open(tmp, "w"))
+        cmd = [hbin, "diff", "--mode", mode, "--replay", tmp, "--out", out]
+    else:
+        cmd = [hbin, "diff", "--mode", mode, "--profile", c.get("profile", "") or "", "--seed", str(j.get("seed", 1)),
+               "--from", str(c["id"]), "--to", str(c["id"] + 1), "--out", out]
+    pr = run(cmd, timeout=900, check=False)
+    res = None
+    if os.path.exists(out):
+        for line in open(out):
+            try:
+                d = json.loads(line)
+            except Exception:
+                continue
+            if d.get("kind") == "done":
+                res = d
+    if res is None:
+        log("VIOLATION property=%s replay=%s" % (prop, path))
+        log("replay: the harness did not finish the case (crash): %s" % (pr.stdout or "")[-400:])
+        return 1
+    if not res.get("fail"):
+        log("replay: the case does not fail on this tree")
+        return 0
+    tags = res.get("tags") or []
+    known = known_by_tag(prop)
+    if any(t in SKIP_TAGS for t in tags):
+        log("replay: the case differs only within the conditioning of its inputs (%s)" % ", ".join(tags))
+        return 0
+    kt = [t for t in tags if t in known]
+    if kt:
+        f = known[kt[0]]
+        log("KNOWN-FINDING: property=%s %s [%s] %s" % (prop, f["id"], kt[0], f["what"]))
+        return 0
+    log("replay: %s" % res.get("fail"))
+    log("VIOLATION property=%s replay=%s" % (prop, path))
+    return 1
 
 
 def run_ref_sweeps(hbin, wd, seed, plan, extra_env=None, jobs=16, timeout_s=900):
